@@ -167,6 +167,10 @@ func (pp c08) Run(c *core.Ctx, idx int) {
 			c.Violate("wrong-meta/"+sigTail, "%s landed on schema node %s, want %s\n%s", what, sel.Path.Meta.Ident(), sn.Name, wit())
 			return false
 		}
+		if bad := pathChain(s, sel.Path, p); bad != "" {
+			c.Violate("wrong-path-chain/"+sigTail, "%s: structured path of the selection does not identify the node: %s\n%s", what, bad, wit())
+			return false
+		}
 		last := p[len(p)-1]
 		if last.Key != nil {
 			got := sel.Key()
@@ -248,10 +252,11 @@ func (pp c08) Run(c *core.Ctx, idx int) {
 				var sel2 *node.Selection
 				if !c.Guard("Find rendered "+rendered, func() { sel2, err = b.Root().Find(rendered) }) {
 					ok := err == nil && sel2 != nil && sel2.Path.Meta == sel.Path.Meta && sameKeys(sel, sel2)
-					if !ok && !hostile {
-						c.Violate("render-back/"+kind+"/"+storeName, "sel.Path renders as %q which does not lead back to the node (%v, %v); original path %q\n%s", rendered, sel2, err, path, wit())
-					} else if !ok {
-						c.Count("render_back_hostile_key_fails")
+					if !ok {
+						c.Violate("render-back/"+kind+"/"+htag+"/"+storeName, "sel.Path renders as %q which does not lead back to the node (%v, %v); original path %q\n%s", rendered, sel2, err, path, wit())
+					}
+					if hostile {
+						c.Count("render_back_hostile_keys")
 					}
 				}
 			}
@@ -426,4 +431,35 @@ func diffAt(s *dp.Schema, want, got *dp.DNode, isList bool) string {
 		return ""
 	}
 	return dp.Diff(s, want, got, dp.CmpOpts{DefaultsMayAppear: true})
+}
+
+// pathChain compares the structured path (Meta and Key of every segment) with the model path.
+func pathChain(s *dp.Schema, path *node.Path, p dp.DPath) string {
+	segs := path.Segments()
+	// segs[0] is the module
+	if len(segs) != len(p)+1 {
+		return fmt.Sprintf("path has %d segments below the module, want %d", len(segs)-1, len(p))
+	}
+	var cur *dp.SNode
+	for i, st := range p {
+		if cur == nil {
+			cur = s.TopChild(st.Name)
+		} else {
+			cur = cur.Child(st.Name)
+		}
+		seg := segs[i+1]
+		if seg.Meta != cur.Meta {
+			return fmt.Sprintf("segment %d is %s, want %s", i, seg.Meta.Ident(), st.Name)
+		}
+		if len(seg.Key) != len(st.Key) {
+			return fmt.Sprintf("segment %d (%s) has %d key values, want %d", i, st.Name, len(seg.Key), len(st.Key))
+		}
+		for j, kv := range seg.Key {
+			lv, bad := dp.FromVal(cur.Child(cur.Keys[j]).Type, false, kv)
+			if bad != "" || lv == nil || lv.V[0] != st.Key[j] {
+				return fmt.Sprintf("segment %d (%s) key %d is %v, want %q", i, st.Name, j, kv, st.Key[j])
+			}
+		}
+	}
+	return ""
 }
